@@ -306,7 +306,7 @@ class SgzConverter(SgzReader):
             spec.format = data_sample_format_code
         else:
             new_headerbytes = bytearray(self.headerbytes)
-            new_headerbytes[DISK_BLOCK_BYTES + 3225: DISK_BLOCK_BYTES + 3227] = int_to_bytes(1)
+            new_headerbytes[DISK_BLOCK_BYTES + 3224: DISK_BLOCK_BYTES + 3226] = (1).to_bytes(2, byteorder='big')
             self.headerbytes = bytes(new_headerbytes)
             spec.format = 1
 
